@@ -199,6 +199,64 @@ type stressOut struct {
 	Panics        []string          `json:"panics"`
 	ElapsedMs     int64             `json:"elapsed_ms"`
 	Observations  [][]int           `json:"observations"`
+	LoaderLogs    []LoaderLog       `json:"loader_logs"`
+}
+
+// LoaderLog: what the stress run recorded for one versioned url (see stress/stub.go).
+type LoaderLog struct {
+	Env    string     `json:"env"`
+	URL    string     `json:"url"`
+	Stores [][2]int64 `json:"stores"`
+	Serves [][4]int64 `json:"serves"`
+	Loads  [][3]int64 `json:"loads"`
+}
+
+func (l *LoaderLog) coq(id int) string {
+	var items []string
+	for _, s := range l.Stores {
+		items = append(items, fmt.Sprintf("rt %d %d", s[0], s[1]))
+	}
+	for _, s := range l.Serves {
+		items = append(items, fmt.Sprintf("rs %d %d %d %d", s[0], s[1], s[2], s[3]))
+	}
+	for _, s := range l.Loads {
+		items = append(items, fmt.Sprintf("rl %d %d %d", s[0], s[1], s[2]))
+	}
+	return fmt.Sprintf("mklc %d [%s]", id, strings.Join(items, ";"))
+}
+
+type loaderCase struct {
+	Stress *StressCfg `json:"stress"`
+	Log    LoaderLog  `json:"log"`
+}
+
+// writeLoaderShard: the recorded logs as cases for Conc/Run.v (lmismatches: LoaderModel.log_explained).
+func writeLoaderShard(cfg *common.Config, rep *common.Report, cases []loaderCase) error {
+	if len(cases) == 0 {
+		return nil
+	}
+	name := filepath.Join(cfg.OutDir, "cases_C20_L00.v")
+	var b strings.Builder
+	b.WriteString("From Coq Require Import List Uint63.\nFrom GSP Require Import Conc.Run.\nImport ListNotations.\nOpen Scope uint63_scope.\n")
+	b.WriteString("Definition lcases : list lcase := [\n")
+	for i := range cases {
+		id := 100000 + i
+		if i > 0 {
+			b.WriteString(";\n")
+		}
+		b.WriteString("  " + cases[i].Log.coq(id))
+		rep.Case(name, id, Input{Kind: "stress", Stress: cases[i].Stress, Note: "loader log of " + cases[i].Log.URL + " (" + cases[i].Log.Env + ")"})
+		rep.Count("loader-log/cases")
+		rep.Distribution["loader-log/loads"] += len(cases[i].Log.Loads)
+		rep.Distribution["loader-log/origin-answers"] += len(cases[i].Log.Serves)
+		rep.Distribution["loader-log/stores"] += len(cases[i].Log.Stores)
+	}
+	b.WriteString("].\nDefinition M := Eval vm_compute in lmismatches lcases.\nPrint M.\n")
+	if err := os.WriteFile(name, []byte(b.String()), 0o644); err != nil {
+		return err
+	}
+	rep.Shards = append(rep.Shards, name)
+	return nil
 }
 
 type stressRes struct {
@@ -645,7 +703,7 @@ func (hs *handoffSet) write(cfg *common.Config, rep *common.Report) error {
 
 func Run(cfg *common.Config) (*common.Report, error) {
 	rep := common.NewReport("C20")
-	rep.Correspondence = "Conc.Run.cmismatches: Sem.run on the regenerated skeletons (Generated/CacheSkeleton.v) over an abstract map vs loaders.memoryCacheEngine.Get/Set executed call by call from different goroutines"
+	rep.Correspondence = "Conc.Run.lmismatches: LoaderModel.log_explained (accepts every log of the loader state machine, LoaderTheory.model_log_explained) on the load/origin/store logs recorded for the versioned urls in the stress runs vs loaders.documentLoader.LoadDocument; Conc.Run.cmismatches: Sem.run on the regenerated skeletons (Generated/CacheSkeleton.v) over an abstract map vs loaders.memoryCacheEngine.Get/Set executed call by call from different goroutines"
 	rep.Rule = "evaluations = operation results compared with the sequential oracle in the race-instrumented stress runs (merklize, proof, hash, load, cache Get/Set) + calls of the hand-over cases; distinct = distinct (operation kind, argument) pairs per stress run + hand-over programs with >= 2 threads in which some Get observes another call's Set"
 	root, err := verifRoot()
 	if err != nil {
@@ -704,6 +762,7 @@ func Run(cfg *common.Config) (*common.Report, error) {
 			plan = append(plan, &StressCfg{Mode: "cache", Seed: r.Int63n(1 << 30), Goroutines: pickN(), Ops: 3000, Clock: []string{"atomic", "mono"}[i%2]})
 		}
 	}
+	var loaderCases []loaderCase
 	for _, sc := range plan {
 		res, err := runStress(bin, cfg.OutDir, sc, time.Duration(cfg.Pick(120, 600))*time.Second)
 		if err != nil {
@@ -711,6 +770,11 @@ func Run(cfg *common.Config) (*common.Report, error) {
 		}
 		judge(rep, sc, res, "")
 		account(rep, sc, res)
+		if res.Out != nil {
+			for _, l := range res.Out.LoaderLogs {
+				loaderCases = append(loaderCases, loaderCase{Stress: sc, Log: l})
+			}
+		}
 		if res.TimedOut {
 			rep.Notes = append(rep.Notes, "a stress run hung; the remaining stress runs are skipped")
 			break
@@ -733,6 +797,9 @@ func Run(cfg *common.Config) (*common.Report, error) {
 		return nil, err
 	}
 	if err := hs.write(cfg, rep); err != nil {
+		return nil, err
+	}
+	if err := writeLoaderShard(cfg, rep, loaderCases); err != nil {
 		return nil, err
 	}
 	rep.Notes = append(rep.Notes,
@@ -813,6 +880,15 @@ func replay(cfg *common.Config, rep *common.Report, root string) (*common.Report
 		}
 		failed := judge(rep, in.Stress, res, in.Note)
 		account(rep, in.Stress, res)
+		if res.Out != nil {
+			var lc []loaderCase
+			for _, l := range res.Out.LoaderLogs {
+				lc = append(lc, loaderCase{Stress: in.Stress, Log: l})
+			}
+			if err := writeLoaderShard(cfg, rep, lc); err != nil {
+				return nil, err
+			}
+		}
 		fmt.Printf("replay: stress mode=%s goroutines=%d -> exit=%d races=%d failed=%v\n", in.Stress.Mode, in.Stress.Goroutines, res.Exit, res.Races, failed)
 	case "handoff":
 		if in.Handoff == nil {
